@@ -3,6 +3,7 @@
 set -e
 cd "$(dirname "$0")"
 export CARGO_NET_OFFLINE=true
+python3 tools_rs2v.py >/dev/null   # coq/Gen/Scalar.v from /repo's current source text
 sh coq/mkproject.sh
 # -k: one file that does not compile must not block the others (each check builds its own target)
 ( cd coq && timeout 7200 make -j16 -k >/dev/null 2>&1 || echo "setup: some Coq files did not compile (the checks that need them will say so)" )
